@@ -777,11 +777,11 @@ VARIANTS = [
     M("slice-before-guard", "lena/core/fill_compute_seq.py", "        if fc_el is None:", "        after_probe = seq[ind+1:]\n        if fc_el is None:", ["C20-g"]),
     M("name-bound-in-one-branch", "lena/flow/elements.py", "        self.count += 1\n        data, context = lena.flow.get_data_context(value)", "        self.count += 1\n        if self.count:\n            data, context = lena.flow.get_data_context(value)", ["C20-g"]),
     M("all-lists-missing-name", "lena/flow/__init__.py", "'Cache',", "'Cache', 'CacheX',", ["C20-a"]),
-    M("unbound-exception-name", "lena/flow/filter.py", "lena.core.LenaTypeError", "LenaTypeErrorr", ["C20-b"]),
+    M("unbound-exception-name", "lena/flow/iterators.py", "raise lena.core.LenaValueError(err)", "raise LenaValueErrorr(err)", ["C20-b"]),
     M("typo-in-chain", "lena/flow/iterators.py", "lena.core.LenaStopFill", "lena.core.LenaStopFil", ["C20-c"]),
     M("raise-builtin", "lena/flow/iterators.py", "raise lena.core.LenaStopFill", "raise StopIteration", ["C20-d"]),
     M("bad-string-member", "lena/flow/cache.py", 'call="_load_flow"', 'call="_load_flows"', ["C20-e"]),
     M("drop-local-import", "lena/context/update_context.py", "        import lena.flow\n", "", ["C20-c"]),
     TW("py2-branch-name", "lena/flow/iterators.py", "import itertools\n", "import itertools\nimport sys\nif sys.version_info.major == 2:\n    _s = basestring\n"),
-    TW("alias-import", "lena/flow/filter.py", "import lena.core\n", "import lena.core\nimport lena.core as _lc\n"),
+    TW("alias-import", "lena/flow/iterators.py", "import lena.core\n", "import lena.core\nimport lena.core as _lc\n"),
 ]
